@@ -10,7 +10,8 @@
 (* with the j-th allocation failing for every j in 1..N (and random subsets). *)
 EXTENDS Lifecycle, TLC, Json
 
-CONSTANTS MaxLen, Updatable, OneShots
+CONSTANTS MaxLen, Updatable, OneShots,
+          OpNames     \* operation names this run draws from (families: handle, index, filters)
 
 VARIABLES hk, alive, path
 gvars == <<hk, alive, path>>
@@ -66,7 +67,7 @@ Effect(o) ==
                   [] OTHER -> alive
 
 GInit == hk = "none" /\ alive = {} /\ path = <<>>
-GNext == \E o \in Alphabet : Legal(o) /\ Effect(o) /\ path' = Append(path, o)
+GNext == \E o \in {a \in Alphabet : a.op \in OpNames} : Legal(o) /\ Effect(o) /\ path' = Append(path, o)
 GSpec == GInit /\ [][GNext]_gvars
 
 Emit == Len(path) < MaxLen /\ PrintT(<<"PLAN", ToJson(path')>>)
